@@ -146,7 +146,7 @@ def deploy_path(I, res, prop):
     W = World(I).boot()
     n_on = I.path.choose(3, "on-entries")
     on = [{"id": "ev%d" % i, "uses": "acts.event.manual"} for i in range(n_on)]
-    model = scen.wf("dm", [scen.step("s1", [scen.irq("a1")])], on=on, name="demo")
+    model = scen.wf("dm", [scen.step("s1", [scen.irq("a1")])], on=on, name="demo", desc="a description", tag="t1", ver=7, env={"e": 1})
     dup = I.path.choose(2, "dup-ids") == 1
     if dup:
         model["steps"].append(scen.step("s1", [scen.irq("a2")]))
@@ -209,6 +209,54 @@ def deploy_path(I, res, prop):
         cx.viol("rm-model:events-left=%s" % left, "after removing model dm the registered events belong to %s (expected only om's)" % left)
     if len(res.samples) < 2:
         res.samples.append(dict(check="deploy", deploys=times, on_entries=n_on))
+
+
+RICH = {
+    "id": "rich", "name": "rich model", "desc": "every field set", "tag": "t-wf", "ver": 7,
+    "env": {"e": 1}, "inputs": {"x": 1}, "outputs": {"o": 2},
+    "setup": [{"uses": "acts.core.msg", "key": "wf-setup", "on": "completed"}],
+    "on": [{"id": "ev1", "uses": "acts.event.manual"}],
+    "steps": [
+        {"id": "s1", "name": "step one", "desc": "d-s1", "tag": "t-s1", "inputs": {"si": 1}, "outputs": {"so": 2}, "if": "x > 0",
+         "setup": [{"uses": "acts.core.msg", "key": "s-setup", "on": "created"}],
+         "catches": [{"on": "e1", "steps": [{"id": "cs1", "name": "catch step"}]}],
+         "timeout": [{"on": "2h", "steps": [{"id": "ts1"}]}],
+         "acts": [{"id": "a1", "name": "act one", "desc": "d-a1", "uses": "acts.core.irq", "params": {"p": [1, "two"]}, "options": {"opt": True}, "if": "x > 1", "key": "k-a1", "tag": "t-a1",
+                   "inputs": {"ai": 1}, "outputs": {"ao": None}, "setup": [{"uses": "acts.core.msg", "key": "a-setup", "on": "updated"}],
+                   "catches": [{"steps": [{"id": "cs2"}]}], "timeout": [{"on": "30s", "steps": [{"id": "ts2"}]}]}]},
+        {"id": "s2", "next": "s1",
+         "branches": [{"id": "b1", "name": "branch one", "desc": "d-b1", "tag": "t-b1", "inputs": {"bi": 1}, "outputs": {"bo": 2}, "if": "x > 2", "steps": [{"id": "bs1"}]},
+                      {"id": "b2", "needs": ["b1"], "steps": [{"id": "bs2"}]},
+                      {"id": "b3", "else": True, "steps": [{"id": "bs3"}]}]},
+    ],
+}
+
+
+def roundtrip_path(I, res, prop):
+    """A model in which every field of Workflow / Step / Branch / Act / Catch / Timeout carries a non-default value goes through the real to_yml / to_json and from_yml / from_json
+    (serde's derive is modelled structurally, honouring the field attributes read from the source: default, skip*, rename, alias): nothing may be lost on the way."""
+    cx = MCtx(I, res, prop, "roundtrip")
+    W = World(I).boot()
+    m = W.model(RICH)
+    res.witnesses += 1
+    for fmt in ("yml", "json"):
+        text = I.call_raw("model::workflow::Workflow::to_" + fmt, [Ptr([m], 0)], None)
+        if text.d != 0:
+            cx.viol("roundtrip:%s:write-failed" % fmt, "to_%s failed on a valid model" % fmt)
+            continue
+        back = I.call_raw("model::workflow::Workflow::from_" + fmt, [text.f[0]], None)
+        if back.d != 0:
+            cx.viol("roundtrip:%s:read-failed" % fmt, "the text written by to_%s does not parse" % fmt)
+            continue
+        if struct_eq(I, back.f[0], m) is not True:
+            lost = [fn for (fn, ft, fa), a, b in zip(I.p.src.struct_fields("model::workflow::Workflow"), back.f[0].f, m.f) if struct_eq(I, a, b) is not True]
+            cx.viol("roundtrip:%s:differs:%s" % (fmt, ",".join(lost)), "to_%s then from_%s does not give the model back (top-level fields that differ: %s)" % (fmt, fmt, lost))
+    if len(res.samples) < 2:
+        res.samples.append(dict(check="roundtrip", model="every field of every model struct non-default", formats=["yml", "json"]))
+
+
+def roundtrip(I, prop):
+    return explore(I, "roundtrip", lambda I, res: roundtrip_path(I, res, prop), max_paths=4)
 
 
 def deploy(I, prop):
